@@ -83,6 +83,18 @@ Definition qleaf (s : stokes) : Z := match s with SQU => 0 | _ => 1 end.
 (* outcome of a constructor: accepted, or the kind of the exception *)
 Inductive ctor_res := CtorOk | CtorValueError.
 
+(* AbstractLinearOperator.__rmul__ / __truediv__ (hence __mul__, __neg__, __sub__): the factor, after
+   jnp.asarray, must be 0-d:   if other.shape != (): raise ValueError(...)   and the operator built is
+   HomothetyOperator(<value>, self.out_structure()) @ self with <value> = other, resp. 1 / other *)
+Definition scale_ctor (factor_shape : shape) : ctor_res :=
+  match factor_shape with [] => CtorOk | _ => CtorValueError end.
+(* the same read from the source (tools/translate/tags.py, ast): per method the guard of the raise,
+   the exception, the value and the structure given to HomothetyOperator *)
+Definition scale_path := (string * (string * (string * (string * string))))%type.
+Definition scale_paths_modelled : list scale_path :=
+  [("__rmul__", ("other.shape != ()", ("ValueError", ("other", "self.out_structure()"))));
+   ("__truediv__", ("other.shape != ()", ("ValueError", ("1 / other", "self.out_structure()"))))]%string.
+
 Section Sem.
   Variable K : Type.
   Variables (k0 k1 : K) (kadd kmul ksub : K -> K -> K) (kopp : K -> K).
@@ -218,11 +230,21 @@ Section Sem.
   Definition cm_identity : class_model :=
     mkCM struct (fun _ => True) (fun st => matrix_of id_mv (ssize st) (ssize st))
          (fun st => st) (fun st => Some st).
-  (* HomothetyOperator(value, in_structure) *)
+  (* HomothetyOperator(value, in_structure): `value: Scalar`, but the constructor (the dataclass one)
+     checks nothing; mv = tree.map(lambda leaf: value * leaf), so a leaf of shape s comes back with
+     shape broadcast_shapes(value.shape, s).  The guard of the class is that the value is 0-d
+     (hm_vshape = []): this is what the public construction paths `s * A`, `A * s`, `A / s`
+     (AbstractLinearOperator.__rmul__ / __truediv__: `if other.shape != (): raise ValueError`,
+     scale_ctor below, tied to the source by FuraxGen.TagTable.gen_scale_paths) enforce, and what
+     `-A`, HomothetyOperator.inverse/__matmul__ and HomothetyRule preserve (products / quotients of
+     0-d values). *)
+  Record hm_params := mkHm { hm_value : K; hm_vshape : shape; hm_struct : struct }.
+  Definition hm_out (p : hm_params) : option struct :=
+    oseq (map (fun leaf => broadcast_shapes (hm_vshape p) leaf) (hm_struct p)).
   Definition cm_homothety : class_model :=
-    mkCM (K * struct) (fun _ => True)
-         (fun p => matrix_of (homothety_mv (fst p)) (ssize (snd p)) (ssize (snd p)))
-         (fun p => snd p) (fun p => Some (snd p)).
+    mkCM hm_params (fun p => hm_vshape p = [])
+         (fun p => matrix_of (homothety_mv (hm_value p)) (ssize (hm_struct p)) (ssize (hm_struct p)))
+         hm_struct hm_out.
 
   (* DiagonalOperator(diagonal, axis_destination, in_structure): per leaf the shape of the reshaped
      diagonal, of the reshaped input leaf and of the input leaf itself; dg_vals = broadcast values.
@@ -454,7 +476,22 @@ Module TagsQ.
     let '(m, i, o) := r in (map (map Qred) m, i, o).
   Definition vq (l : list Q) : vec Q := vec_of Q 0%Q l.
   Definition o_identity (st : struct) := outQ (obs Q (cm_identity Q 0%Q 1%Q) st).
-  Definition o_homothety (k : Q) (st : struct) := outQ (obs Q (cm_homothety Q 0%Q 1%Q Qmult) (k, st)).
+  Definition o_homothety (k : Q) (vshape : shape) (st : struct) :=
+    outQ (obs Q (cm_homothety Q 0%Q 1%Q Qmult) (mkHm Q k vshape st)).
+  (* the HomothetyOperator built by s * A / A * s (SMul), A / s (SDiv), -A (SNeg) on A.out_structure() = st,
+     for a factor of shape fshape; None: the factor is rejected (ValueError) *)
+  Inductive spath := SMul | SDiv | SNeg.
+  Definition scale_value (p : spath) (s : Q) : Q :=
+    match p with SMul => s | SDiv => Qinv s | SNeg => (-1 # 1)%Q end.
+  Definition o_scale (p : spath) (s : Q) (fshape : shape) (st : struct) :=
+    match scale_ctor (match p with SNeg => [] | _ => fshape end) with
+    | CtorOk => Some (o_homothety (scale_value p s) (match p with SNeg => [] | _ => fshape end) st)
+    | CtorValueError => None
+    end.
+  (* HomothetyOperator.__matmul__(HomothetyOperator) / HomothetyRule: the product of the values;
+     HomothetyOperator.inverse: 1 / value *)
+  Definition o_homothety_merged (s t : Q) (st : struct) := o_homothety (Qmult s t) [] st.
+  Definition o_homothety_inverse (s : Q) (st : struct) := o_homothety (Qinv s) [] st.
   Definition p_diag (vals : list Q) (leaves : list (shape * shape * shape)) := mkDg Q (vq vals) leaves.
   Definition o_diag_ctor vals leaves := diag_ctor Q (p_diag vals leaves).
   Definition o_diagonal vals leaves := outQ (obs Q (cm_diagonal Q 0%Q 1%Q Qmult) (p_diag vals leaves)).
